@@ -141,11 +141,35 @@ def get_session(ctx):
     return _SESSIONS[key]
 
 
+REFINE_MODULES = {"C01": ["C01Refine", "C01RefinePy"], "C02": ["C01Refine", "C01RefinePy"]}
+REFINE_EXES = {"C01": ["genc", "genpy"], "C02": ["genc", "genpy"]}
+_DRIVERS = {}
+
+
+def run_refinement_ties(ctx):
+    """Tie of the implementation-shaped models GenC / GenPy to the generated code (and to the spec driver)."""
+    drivers = _DRIVERS.get(id(ctx)) or {}
+    t0 = time.time()
+    if "genc" in drivers:
+        from . import genc_tie
+        genc_tie.run_genc(ctx, drivers)
+    if "genpy" in drivers:
+        from . import genpy_tie
+        genpy_tie.run_genpy(ctx, drivers)
+    ctx.extra.setdefault("seconds", {})["refinement_ties"] = round(time.time() - t0, 2)
+
+
 def prove(ctx, prop):
     """ctx.prove, tolerant of a property file / driver that does not exist yet. -> Driver or None."""
     pf = common.LEAN / "NunavutVerif" / "Properties" / f"{prop}.lean"
     if pf.exists():
-        drivers = ctx.prove([prop], exes=["codec"])
+        # the refinement layers (implementation-shaped models of the C and Python targets proved equal to the spec)
+        # serve C01/C02 (and C04/C18 through their own checks): their theorems are counted by name prefix
+        refine = [m for m in REFINE_MODULES.get(prop, []) if (common.LEAN / "NunavutVerif" / "Properties" / f"{m}.lean").exists()]
+        exes = ["codec"] + [e for e in REFINE_EXES.get(prop, []) if common.exe_root(e).exists()]
+        drivers = ctx.prove([prop] + refine, exes=exes, name_filter=(lambda n, p=prop: n.startswith(p + "_")) if refine else None)
+        ctx.extra["drivers"] = sorted(drivers)
+        _DRIVERS[id(ctx)] = drivers
         return drivers.get("codec")
     ctx.broken.append({"kind": "property-file-missing", "file": str(pf.relative_to(common.VERIF))})
     if (common.LEAN / "Drivers" / "Codec.lean").exists():
